@@ -1,5 +1,6 @@
 \* quick tier: every interleaving of two operations (all five kinds, caller
-\* cancellation at every point) with one external edit; the caller's history of
+\* cancellation at every point, any ancestor on any scan) with one external edit,
+\* starting without a root (the first scans return no content); the caller's history of
 \* every finished operation is exported for the conformance driver
 CONSTANTS
   MaxOps = 2
@@ -9,8 +10,9 @@ CONSTANTS
   Limit = 1
   ReadOnly = FALSE
   Watch = "none"
-  AncVals = {"nil", "B"}
+  AncVals = {"nil", "A", "B"}
   Fulls = {FALSE}
+  InitDisks = {"E"}
   Variant = "code"
 SPECIFICATION Spec
 VIEW View
@@ -22,4 +24,5 @@ INVARIANTS
   C21_EndpointsAgree
   C21_NoResidue
   C21_BaselineChain
+  C21_BaselineConsistent
 CHECK_DEADLOCK TRUE
